@@ -471,6 +471,7 @@ from iodata.orbitals import MolecularOrbitals
 warnings.simplefilter("ignore")
 fails, cases = [], 0
 tmp = tempfile.mkdtemp()
+__import__("atexit").register(__import__("shutil").rmtree, tmp, True)
 def full_object():
     shells = [Shell(0, [0], ["c"], np.array([1.0, 0.3]), np.array([[0.6], [0.5]])), Shell(1, [0], ["c"], np.array([0.8]), np.array([[1.0]]))]
     ob = MolecularBasis(shells, HORTON2_CONVENTIONS, "L2")
